@@ -1,4 +1,104 @@
 import PharmpyProofs.C18.Lemmas
+/-
+  C18 — Search spaces are parsed, combined and enumerated exactly.  Property theorems only.
+
+  Part 1: `partitions` (internals/set/partitions.py) enumerates every set partition of a
+  duplicate-free list exactly once, for every length; their number is the Bell number.
+  A set partition is identified with the equivalence relation "in a common block" (`Rel`).
+-/
 namespace Pharmpy.C18
-theorem placeholder_bell : (rawPartitions [0,1,2,3]).length = 15 := by decide
+
+/-! ## partitions.py: the generator `_partitions` -/
+
+/-- Everything `_partitions` yields is a set partition of the input: non-empty blocks
+    whose concatenation is a permutation of the input. -/
+theorem raw_partitions_are_partitions {α : Type} (l : List α) :
+    ∀ P, P ∈ rawPartitions l → IsPartition l P := by
+  intro P hP
+  have h := partsRev_isPartition l.reverse P hP
+  exact ⟨h.1, h.2.trans (List.reverse_perm l)⟩
+
+/-- Completeness: every equivalence relation on the elements (= every set partition)
+    is the block relation of one of the yielded partitions. -/
+theorem raw_partitions_complete {α : Type} (l : List α) (hl : l.Nodup)
+    (R : α → α → Prop) (hR : Equivalence R) :
+    ∃ P, P ∈ rawPartitions l ∧ ∀ a, a ∈ l → ∀ b, b ∈ l → (Rel P a b ↔ R a b) := by
+  obtain ⟨P, hP, h⟩ := partsRev_complete l.reverse ((List.reverse_perm l).nodup_iff.mpr hl) R hR
+  exact ⟨P, hP, fun a ha b hb => h a (List.mem_reverse.mpr ha) b (List.mem_reverse.mpr hb)⟩
+
+/-- No duplicates: two different positions of the output never describe the same set
+    partition (they differ on some pair of elements). -/
+theorem raw_partitions_distinct {α : Type} (l : List α) (hl : l.Nodup) :
+    (rawPartitions l).Pairwise (Differ l) := by
+  refine (partsRev_pairwise_differ l.reverse ((List.reverse_perm l).nodup_iff.mpr hl)).imp ?_
+  rintro P Q ⟨a, ha, b, hb, h⟩
+  exact ⟨a, List.mem_reverse.mp ha, b, List.mem_reverse.mp hb, h⟩
+
+/-- The number of yielded partitions with exactly `k` blocks is the Stirling number of the
+    second kind, for every list (duplicate-free or not). -/
+theorem raw_partitions_count_stirling {α : Type} (l : List α) (k : Nat) :
+    (rawPartitions l).countP (fun P => P.length == k) = stirling2 l.length k := by
+  unfold rawPartitions
+  rw [partsRev_count, List.length_reverse]
+
+/-- `|partitions| = Bell(n)` for every `n`. -/
+theorem raw_partitions_count_bell {α : Type} (l : List α) :
+    (rawPartitions l).length = bell l.length := by
+  unfold rawPartitions
+  rw [partsRev_length, List.length_reverse]
+
+example : (List.range 8).map bell = [1, 1, 2, 5, 15, 52, 203, 877] := by decide
+
+/-! ## partitions.py: the public `partitions` (canonical form and documented order) -/
+
+theorem partitions_perm (l : List Nat) :
+    (partitions l).Perm ((rawPartitions l).map shortlexSorted) :=
+  List.mergeSort_perm _ _
+
+theorem shortlexSorted_perm (P : List (List Nat)) : (shortlexSorted P).Perm P :=
+  List.mergeSort_perm _ _
+
+/-- Every element of `partitions l` is a set partition of `l`. -/
+theorem partitions_are_partitions (l : List Nat) :
+    ∀ P, P ∈ partitions l → IsPartition l P := by
+  intro P hP
+  have hP' := (partitions_perm l).mem_iff.mp hP
+  obtain ⟨Q, hQ, rfl⟩ := List.mem_map.mp hP'
+  have h := raw_partitions_are_partitions l Q hQ
+  have hp := shortlexSorted_perm Q
+  exact ⟨fun p hp' => h.1 p (hp.mem_iff.mp hp'), hp.flatten.trans h.2⟩
+
+/-- `partitions` enumerates every set partition of a duplicate-free list … -/
+theorem partitions_complete (l : List Nat) (hl : l.Nodup) (R : Nat → Nat → Prop) (hR : Equivalence R) :
+    ∃ P, P ∈ partitions l ∧ ∀ a, a ∈ l → ∀ b, b ∈ l → (Rel P a b ↔ R a b) := by
+  obtain ⟨Q, hQ, h⟩ := raw_partitions_complete l hl R hR
+  refine ⟨shortlexSorted Q, (partitions_perm l).mem_iff.mpr (List.mem_map.mpr ⟨Q, hQ, rfl⟩), ?_⟩
+  intro a ha b hb
+  rw [rel_of_perm (shortlexSorted_perm Q)]
+  exact h a ha b hb
+
+/-- … exactly once. -/
+theorem partitions_distinct (l : List Nat) (hl : l.Nodup) :
+    (partitions l).Pairwise (Differ l) := by
+  have h1 : ((rawPartitions l).map shortlexSorted).Pairwise (Differ l) := by
+    rw [List.pairwise_map]
+    refine (raw_partitions_distinct l hl).imp ?_
+    rintro P Q ⟨a, ha, b, hb, h⟩
+    refine ⟨a, ha, b, hb, ?_⟩
+    rw [rel_of_perm (shortlexSorted_perm P), rel_of_perm (shortlexSorted_perm Q)]
+    exact h
+  refine (partitions_perm l).symm.pairwise h1 ?_
+  rintro P Q ⟨a, ha, b, hb, h⟩
+  exact ⟨a, ha, b, hb, fun h' => h h'.symm⟩
+
+/-- In particular the output list has no repeated entry. -/
+theorem partitions_nodup (l : List Nat) (hl : l.Nodup) : (partitions l).Nodup := by
+  refine (partitions_distinct l hl).imp ?_
+  rintro P Q ⟨a, _, b, _, h⟩ rfl
+  exact h Iff.rfl
+
+/-- `|partitions(l)| = Bell(len(l))`. -/
+theorem partitions_count_bell (l : List Nat) : (partitions l).length = bell l.length := by
+  rw [(partitions_perm l).length_eq, List.length_map, raw_partitions_count_bell]
+
 end Pharmpy.C18
